@@ -792,6 +792,10 @@ def prove(name, cond, detail=None):
     ts = z3.simplify(t)
     if z3.is_true(ts):
         ob.status, ob.backend = "discharged", "simplifier"
+    elif z3.is_false(ts):
+        # the clause is false outright on this (feasible) path: no solver needed to refute it
+        ob.status, ob.backend = "refuted", "simplifier"
+        ob.model = {"note": "clause is literally false on the path with decisions %s" % (p.trace[-12:],)}
     else:
         try:
             r = _sliced_unsat(p, t)
